@@ -7,5 +7,19 @@ def P(module, theorems, campaigns, conformance=(), **kw):
     return d
 
 PROPS = {
-    "C02": P("Pw.Props.C02", [], [("session", 3000, 120000)], ["Consts", "Writer"], wf_oracle=True),
+    "C02": P("Pw.Props.C02",
+             ["Pw.Props.C02.C02_roundtrip", "Pw.Props.C02.C02_stream", "Pw.Props.C02.C02_model_output_shape",
+              "Pw.Props.C02.C02_abandon"],
+             [("session", 3000, 120000)], ["Consts", "Writer"], wf_oracle=True,
+             design_ref="§7 C02",
+             level_text="Lean theorems: the strict backend grammar parser inverts the encoding of every structured message "
+                        "(all 14 builders) and of every sequence of them; an abandoned/failed frame never leaks into the next "
+                        "message (Writer model). The model emits structured messages only; it is tied to the Go code by the "
+                        "differential campaign (byte-exact transcripts of random sessions incl. failing rows, decorated errors, "
+                        "faults) and by pinned facts (message type bytes, error field bytes, Writer.Start/End/Reset bodies). The same "
+                        "strict parser is run on the implementation's real output of every case.",
+             level_note="Trusted: Lean kernel; extractor+Conformance (Consts, Writer); harness transport and scripted handlers; "
+                        "the session-level invariant 'every emitted message is WF under representable handler data' is checked "
+                        "on generated cases (oracle), not yet proved for all handler programs.",
+             technique="Lean 4 proof (round-trip of encode/strict-parse, induction on message lists) + differential correspondence"),
 }
